@@ -56,6 +56,7 @@ type Gen struct {
 	Cfg GenCfg
 	M   *Model
 	nonce int
+	queue []Op // ops that a family wants to follow the one it just returned (same transaction)
 }
 
 func (g *Gen) path() string { return fmt.Sprintf("p%d", g.R.Intn(g.Cfg.NPaths)) }
@@ -679,7 +680,7 @@ func (g *Gen) attachOp() Op {
 		return Op{K: "r.make", A: a, P: p, I: g.R.Intn(50)}
 	}
 	a, p := g.target(isR)
-	switch g.R.Intn(14) {
+	switch g.R.Intn(15) {
 	case 0, 1, 2:
 		return Op{K: "at.attach", A: a, P: p, S: []string{"A", "B"}[g.R.Intn(2)], I: g.R.Intn(100)}
 	case 3:
@@ -700,6 +701,8 @@ func (g *Gen) attachOp() Op {
 		return Op{K: "r.destroy", A: a, P: p}
 	case 11:
 		return Op{K: "r.snap", A: a, P: p}
+	case 13:
+		return Op{K: "at.stackMove", A: a, P: p, I: g.R.Intn(2)}
 	case 12:
 		isS := isK("S")
 		if _, _, ok := g.occupied(isS); !ok {
@@ -729,6 +732,11 @@ func (g *Gen) controlOp() Op {
 }
 
 func (g *Gen) op() Op {
+	if len(g.queue) > 0 {
+		o := g.queue[0]
+		g.queue = g.queue[1:]
+		return o
+	}
 	total := 0
 	var fams []string
 	for _, f := range []string{"storage", "resource", "container", "copy", "attachment", "event", "control", "capability", "contract", "hostsvc"} {
